@@ -150,6 +150,8 @@ class Probe:
                     for r in recs[-op[1]:] if op[1] else []:
                         extras += len([m for m in r['model'] if m[0] == 'update'])
             want += extras
+        elif kind == 'fresh' and cfg.seed % 3 == 0:
+            want = nlev          # the placeholder start set on the fresh sampler before the state is loaded: one evaluation per level
         else:
             want = 0
         # reads made by touch_readers happened before 'before' snapshot of next op; any call they make shows up in the next delta
